@@ -39,6 +39,9 @@ var (
 // one, and to inject disk errors.
 var Hook func(op, path string) error
 
+// After is called after a successful fsync of a file.
+var After func(op, path string)
+
 // Pid is what Getpid reports under simulation.
 var Pid = 4242
 
@@ -106,7 +109,11 @@ func (f *File) Sync() error {
 	if err := pre("fsync", f.f.Name()); err != nil {
 		return err
 	}
-	return f.f.Sync()
+	err := f.f.Sync()
+	if err == nil && After != nil && !rt.PassThrough {
+		After("fsync", f.f.Name())
+	}
+	return err
 }
 
 func (f *File) Stat() (FileInfo, error) {
@@ -173,7 +180,11 @@ func Remove(name string) error {
 	if err := pre("remove", name); err != nil {
 		return &os.PathError{Op: "remove", Path: name, Err: err}
 	}
-	return os.Remove(name)
+	err := os.Remove(name)
+	if err == nil && After != nil && !rt.PassThrough {
+		After("remove", name)
+	}
+	return err
 }
 
 func RemoveAll(name string) error {
